@@ -6,7 +6,7 @@
    container (std = true); [jl_case] is the multiset-priority-queue judge that the check applies to the real
    implementation's outputs. *)
 From Coq Require Import List ZArith Bool Permutation.
-From V Require Import Model.Heap Proofs.HeapTop.
+From V Require Import Lib.Enc Model.Heap Run.C04 Proofs.HeapTop Proofs.HeapRun.
 Import ListNotations.
 
 (* ---- adjustment.go / std_heap.go: the sift loops, for any strict weak order ---- *)
@@ -202,3 +202,19 @@ Theorem c04_invariant_is_observable : forall (A : Type) (d : A) (lt : A -> A -> 
   WInv A d lt w -> J A w j -> view_ok A d lt j (map (eidx A) (wst A w)) = true.
 Proof. exact t_view_ok. Qed.
 Print Assumptions c04_invariant_is_observable.
+
+(* ==== what the check executes ====
+   Run/C04.v: [entry 0 args] = the model's encoded trace, [entry 1 args] = the judge applied to it (after decoding
+   it again), [entry 2] = the same judge applied to the implementation's output.  For every integer list that
+   decodes as a case (Heap cases: API operations only, i.e. without the harness-only index overwrite), the judge
+   accepts the model: the comparator of the run is a strict weak order and the integer encoding loses nothing. *)
+Theorem c04_run_level : forall args c, dec_case args = Some c ->
+  match c with CList _ _ _ => True | CHeap ops => forallb (hop_wf Z) ops = true end ->
+  entry 1 args = [1%Z].
+Proof. exact run_model_judged. Qed.
+Print Assumptions c04_run_level.
+(* a Heap case decodes to API operations on heaps 0 / 1 as soon as no operation code is 10 *)
+Theorem c04_decoded_ops_are_api : forall fuel next l ops, dec_hops fuel next l = Some ops -> no_corrupt l = true ->
+  forallb (hop_wf Z) ops = true.
+Proof. exact dec_hops_wf. Qed.
+Print Assumptions c04_decoded_ops_are_api.
